@@ -95,6 +95,27 @@ Proof.
   destruct (Nat.ltb_spec (length targs) (length args)); [reflexivity|lia].
 Qed.
 
+Lemma cta_loop_cons : forall s targs k unsolved x rest,
+    exists d u', fst (cta_loop s targs k unsolved (x :: rest)) = d ++ fst (cta_loop s targs (S k) u' rest).
+Proof.
+  intros. simpl. destruct x as [[[onm t0] r0]|]; [|exists [], unsolved; reflexivity].
+  destruct onm as [nm|].
+  - destruct (remove_name nm unsolved) as [was u'] eqn:Er. destruct was.
+    + destruct (find_targ nm targs) as [a|]; simpl.
+      * destruct (cta_loop s targs (S k) u' rest) eqn:E. simpl.
+        exists (if can_cast s t0 (lf_ty a) then [] else [(r0, DArgType)]), u'. now rewrite E.
+      * destruct (cta_loop s targs (S k) u' rest) eqn:E. simpl. exists [], u'. now rewrite E.
+    + destruct (find_targ nm targs) as [a|]; simpl;
+        destruct (cta_loop s targs (S k) u' rest) eqn:E; simpl.
+      * exists [(r0, DArgOnce)], u'. now rewrite E.
+      * exists [(r0, DArgNotExist)], u'. now rewrite E.
+  - destruct (nth_error targs k) as [a|]; simpl.
+    + destruct (cta_loop s targs (S k) (snd (remove_name (lf_name a) unsolved)) rest) eqn:E. simpl.
+      exists (if can_cast s t0 (lf_ty a) then [] else [(r0, DArgType)]), (snd (remove_name (lf_name a) unsolved)).
+      now rewrite E.
+    + destruct (cta_loop s targs (S k) unsolved rest) eqn:E. simpl. exists [], unsolved. now rewrite E.
+Qed.
+
 Lemma cta_loop_arg_type : forall s targs args k unsolved j vty vr a,
     nth_error args j = Some (Some (None, vty, vr)) -> nth_error targs (k + j) = Some a ->
     can_cast s vty (lf_ty a) = false ->
@@ -106,12 +127,8 @@ Proof.
     + injection Hj as ->. simpl. rewrite Nat.add_0_r in Ha. rewrite Ha, Hc.
       destruct (cta_loop s targs (S k) (snd (remove_name (lf_name a) unsolved)) rest). simpl. now left.
     + assert (Ha' : nth_error targs (S k + j) = Some a) by (now rewrite <- plus_n_Sm in Ha).
-      simpl. destruct x as [[[onm t0] r0]|].
-      * match goal with |- In _ (fst (let '(d1, u1, tg) := ?X in _)) => destruct X as [[d1 u1] tg] end.
-        specialize (IH (S k) u1 j vty vr a Hj Ha' Hc).
-        destruct (cta_loop s targs (S k) u1 rest). simpl in *.
-        apply in_or_app; right. apply in_or_app; now right.
-      * apply (IH (S k) unsolved j vty vr a Hj Ha' Hc).
+      destruct (cta_loop_cons s targs k unsolved x rest) as [d [u' E]]. rewrite E.
+      apply in_or_app. right. apply (IH (S k) u' j vty vr a Hj Ha' Hc).
 Qed.
 
 Theorem incompatible_template_argument : forall s targs args r j vty vr a,
